@@ -108,6 +108,7 @@ class ClientSettings(BaseSettings):
 
         assert_string_is_valid_python_identifier(self.enums_module_name)
         assert_string_is_valid_python_identifier(self.input_types_module_name)
+        assert_string_is_valid_python_identifier(self.fragments_module_name)
 
         for file_path in self.files_to_include:
             assert_path_is_valid_file(file_path)
